@@ -73,6 +73,8 @@ fn main() {
         "c05_state" => c05::state(&v),
         "c05_compress" => c05::compress(&v),
         "c05_notes_batch" => c05::notes_batch(&v),
+        "c05_note_text" => c05::note_text(&v),
+        "c05_rebase_loop" => c05::rebase_loop(&v),
         "c06_handoff" => c06::handoff(&v),
         "c14_entry" => c14::entry(&v),
         "c14_prune_select" => c14::prune_select(&v),
